@@ -6,6 +6,8 @@ import (
 	"bytes"
 	"encoding/binary"
 	"fmt"
+	"io"
+	"log"
 	"reflect"
 	"regexp"
 	"runtime"
@@ -55,6 +57,44 @@ var knownIDs = map[byte]bool{0: true, 1: true, 2: true, 3: true, 4: true, 5: tru
 
 // checkStream is the oracle; it is a function of the bytes only.
 func checkStream(s []byte, allowHuge bool) (out outcome, fail string) {
+	out, fail = checkStream1(s, allowHuge)
+	if fail == "" {
+		fail = checkWithLogger(s)
+	}
+	return out, fail
+}
+
+// checkWithLogger decodes the same stream once more the way storrent does
+// with -debug: Read is given a logger (into nothing).  Logging must not
+// change what is decoded, and must not crash on what the decoder accepts.
+func checkWithLogger(s []byte) string {
+	dec := func(l *log.Logger) (kinds []string, pv any) {
+		r := bufio.NewReaderSize(&countingSrc{b: s}, 16)
+		defer func() { pv = recover() }()
+		for k := 0; k < 6; k++ {
+			m, err := protocol.Read(r, l)
+			kinds = append(kinds, fmt.Sprintf("%T/%v", m, err != nil))
+			if err != nil {
+				break
+			}
+		}
+		return kinds, nil
+	}
+	plain, pv := dec(nil)
+	if pv != nil {
+		return "" // (reported by the main pass)
+	}
+	logged, pv := dec(log.New(io.Discard, "", 0))
+	if pv != nil {
+		return fmt.Sprintf("with a debug logger (storrent -debug) Read panics: %v", pv)
+	}
+	if fmt.Sprint(plain) != fmt.Sprint(logged) {
+		return fmt.Sprintf("with a debug logger Read decodes %v, without %v", logged, plain)
+	}
+	return ""
+}
+
+func checkStream1(s []byte, allowHuge bool) (out outcome, fail string) {
 	src := &countingSrc{b: s}
 	r := bufio.NewReaderSize(src, 16)
 	consumed := func() int { return src.pos - r.Buffered() }
